@@ -106,7 +106,19 @@ macro_rules! pstr_call {
             "new" => match $mut::new(bytes) {
                 Ok(p) => {
                     let s: &str = p.as_str();
-                    okhex(s.as_bytes())
+                    format!("{} s{}", okhex(s.as_bytes()), p.size())
+                }
+                Err(_) => "err".to_string(),
+            },
+            "upper" => match $mut::new(bytes) {
+                // write through the &mut str handed out by DerefMut
+                Ok(mut p) => {
+                    {
+                        let m: &mut str = &mut p;
+                        m.make_ascii_uppercase();
+                    }
+                    let s: &str = &p;
+                    format!("{} s{}", okhex(s.as_bytes()), p.size())
                 }
                 Err(_) => "err".to_string(),
             },
@@ -121,7 +133,7 @@ macro_rules! pstr_call {
                             let _ = m.len();
                         }
                         let s: &str = p.as_str();
-                        okhex(s.as_bytes())
+                        format!("{} s{}", okhex(s.as_bytes()), p.size())
                     }
                     Err(_) => "err".to_string(),
                 }
@@ -146,7 +158,7 @@ impl PStrSut {
     pub fn parse(&self, l: &str) -> Option<Op> {
         let ws: Vec<&str> = l.split_whitespace().collect();
         let name = *ws.first()?;
-        const NAMES: &[&str] = &["new", "copy", "load", "size"];
+        const NAMES: &[&str] = &["new", "copy", "load", "size", "upper"];
         let n = NAMES.iter().find(|n| **n == name)?;
         let (args, blob) = Op::parse_args(&ws[1..]);
         Some(Op { name: n, args, blob })
@@ -232,7 +244,7 @@ impl Sut for PStrSut {
         v
     }
     fn ops(&self, _state: &[u8]) -> Vec<Op> {
-        let mut v = vec![Op::new("new", &[]), Op::new("load", &[]), Op::new("size", &[])];
+        let mut v = vec![Op::new("new", &[]), Op::new("load", &[]), Op::new("size", &[]), Op::new("upper", &[])];
         for s in &self.strs {
             v.push(Op::with_blob("copy", &[], s.as_bytes()));
         }
@@ -253,7 +265,7 @@ impl Sut for PStrSut {
     }
     fn kind(&self, op: &Op) -> Kind {
         match op.name {
-            "new" | "copy" => Kind::Mutating,
+            "new" | "copy" | "upper" => Kind::Mutating,
             _ => Kind::Query,
         }
     }
@@ -299,7 +311,7 @@ impl Sut for PStrSut {
         let w = self.w;
         // C11: every &str handed out is valid UTF-8
         if let Some(h) = out.result.strip_prefix("ok x") {
-            let b = unhex(h);
+            let b = unhex(h.split(' ').next().unwrap_or(""));
             if std::str::from_utf8(&b).is_err() {
                 f.push(Finding { property: "C11", what: format!("`{}` handed out a &str with invalid UTF-8 bytes {:02x?}", op.text(), b) });
             }
@@ -316,7 +328,7 @@ impl Sut for PStrSut {
             x
         };
         match op.name {
-            "new" | "copy" => {
+            "new" | "copy" | "upper" => {
                 if out.panic.is_some() {
                     return f;
                 }
@@ -327,8 +339,16 @@ impl Sut for PStrSut {
                     return f;
                 }
                 let valid_pre = std::str::from_utf8(&pre[w..w + want]).is_ok();
-                if op.name == "new" {
-                    let exp = if valid_pre { okhex(&pre[w..w + want]) } else { "err".to_string() };
+                if op.name == "upper" {
+                    let exp = if valid_pre { format!("{} s{}", okhex(&pre[w..w + want].to_ascii_uppercase()), w + want) } else { "err".to_string() };
+                    if out.result != exp {
+                        f.push(Finding { property: "C13", what: format!("after make_ascii_uppercase through deref_mut the string is {} (expected {})", out.result, exp) });
+                    }
+                    if valid_pre && (post[w..w + want] != pre[w..w + want].to_ascii_uppercase()[..] || post[w + want..] != pre[w + want..]) {
+                        f.push(Finding { property: "C13", what: "writing through deref_mut changed bytes other than the string's own".into() });
+                    }
+                } else if op.name == "new" {
+                    let exp = if valid_pre { format!("{} s{}", okhex(&pre[w..w + want]), w + want) } else { "err".to_string() };
                     if out.result != exp {
                         f.push(Finding { property: if valid_pre { "C13" } else { "C11" }, what: format!("`new` over payload {:02x?} returned {} (expected {})", &pre[w..w + want], out.result, exp) });
                     }
@@ -343,8 +363,8 @@ impl Sut for PStrSut {
                     if post[w..w + want] != exp[..] {
                         f.push(Finding { property: "C13", what: format!("copy of {:?} into {} bytes stored {:02x?}, expected the longest fitting char-prefix then zeros {:02x?}", text, want, &post[w..w + want], exp) });
                     }
-                    if out.result != okhex(&exp) {
-                        f.push(Finding { property: "C13", what: format!("as_str after copy of {:?} is {} (expected {})", text, out.result, okhex(&exp)) });
+                    if out.result != format!("{} s{}", okhex(&exp), w + want) {
+                        f.push(Finding { property: "C13", what: format!("as_str/size after copy of {:?} is {} (expected {} s{})", text, out.result, okhex(&exp), w + want) });
                     }
                     if post[w + want..] != pre[w + want..] {
                         f.push(Finding { property: "C13", what: "copy changed bytes beyond the recorded length".into() });
